@@ -122,12 +122,40 @@ def gen_int(rng):
     return rng.choice([1, -1]) * rng.getrandbits(rng.choice([20, 40, 52, 53, 54, 60, 63]))
 
 
+PRECISE_FLOATS = ["52.5200065", "1234567.891", "0.000123456789", "13.404954", "99999.9999999", "3.14159265358979",
+                  "0.1000000001", "123456.789012345", "-77.0364827", "1.00000001", "299792.458001", "6.02214076",
+                  "0.30000000004", "16777217.5", "2.718281828459", "-0.00098765432"]
+
+
+def gen_precise_float(rng):
+    """a decimal of 8-15 significant digits (exact in the model's float64 fragment, but not a float32): mostly of a
+    magnitude that %v writes in plain digits (1e-4 <= |x| < 1e6), sometimes beyond (exponent form: class KF-C17g)"""
+    if rng.random() < 0.3:
+        return rng.choice(PRECISE_FLOATS)
+    nd = rng.randint(8, 15)
+    digits = [rng.randint(1, 9)] + [rng.randint(0, 9) for _ in range(nd - 2)] + [rng.randint(1, 9)]
+    m = int("".join(str(d) for d in digits))
+    dexp = rng.choice([-4, -3, -2, -1, 0, 0, 1, 1, 2, 2, 3, 4, 5, 5]) if rng.random() < 0.85 else \
+        rng.choice([-7, -5, 6, 7, 9, 12])
+    if dexp - nd + 1 >= 0:                      # an integral float: keep a fraction so that YAML reads a float
+        dexp = nd - 2
+    d = Decimal(m).scaleb(dexp - nd + 1)
+    return ("-" if rng.random() < 0.25 else "") + format(d, "f")
+
+
+def sig_digits(text):
+    me = dec_norm(text)
+    return len(str(abs(me[0]))) if me and me[0] else 0
+
+
 def gen_float(rng):
     r = rng.random()
-    if r < 0.75:
+    if r < 0.50:
         return rng.choice(FLOATS)
-    if r < 0.85:
+    if r < 0.58:
         return "%d.%d" % (rng.randint(-9999, 9999), rng.randint(1, 999))
+    if r < 0.86:
+        return gen_precise_float(rng)
     if r < 0.95:
         return rng.choice(EFORM_FLOATS)
     return rng.choice(WIDE_FLOATS)
@@ -257,6 +285,95 @@ def gen_type(rng, depth=0):
             go, tag = GONAME[n], ""
         fields.append([go, tag, gen_type(rng, depth + 1)])
     return ["struct", fields]
+
+
+def hexs(x):
+    return x.encode().hex()
+
+
+PRE_WORDS = ["dflt", "keep me", "0", "x", "localhost", "true", "12"]
+PRE_KEYS = ["dflt", "keep", "zone", "env"]
+
+
+def gen_pre_any(rng, depth=0):
+    r = rng.random()
+    if depth >= 1 or r < 0.5:
+        return rng.choice([{"s": hexs("dflt")}, {"i": "7"}, {"f": "2.5"}, {"b": True}, {"s": hexs("12")}])
+    if r < 0.75:
+        return {"l": [gen_pre_any(rng, depth + 1) for _ in range(rng.choice([2, 3, 4]))]}
+    return {"m": sorted([hexs(k), gen_pre_any(rng, depth + 1)] for k in rng.sample(PRE_KEYS + ["name", "port"], 2))}
+
+
+def gen_prefill(rng, t, depth=0):
+    """an <fval> of type t that is not the zero value: what a constructor left in the field (slices longer than the
+    lists the generator configures, maps with keys of their own, structs with every field set)"""
+    k = t[0]
+    if k == "string":
+        return {"S": hexs(rng.choice(PRE_WORDS))}
+    if k == "bool":
+        return {"B": rng.random() < 0.85}
+    if k == "int":
+        return {"I": str(rng.choice([1, 7, 42, -3, 100]))}
+    if k == "uint":
+        return {"I": str(rng.choice([1, 7, 42, 100]))}
+    if k == "float":
+        return {"F": rng.choice(["0.5", "2.25", "-1.5", "8"])}
+    if k == "any":
+        return {"A": gen_pre_any(rng)}
+    if k == "ptr":
+        return {"N": 1} if rng.random() < 0.12 else {"P": gen_prefill(rng, t[1], depth)}
+    if k == "slice":
+        if rng.random() < 0.06:
+            return {"L": []}
+        n = rng.choice([3, 4, 5, 6]) if depth == 0 else rng.choice([1, 2, 3])
+        return {"L": [gen_prefill(rng, t[1], depth + 1) for _ in range(n)]}
+    if k == "map":
+        keys = rng.sample(PRE_KEYS, rng.choice([1, 2, 2, 3]))
+        if rng.random() < 0.5:
+            keys.append(rng.choice(SUBKEYS))           # a key the configuration may supply as well
+        return {"M": sorted([hexs(kk), gen_prefill(rng, t[1], depth + 1)] for kk in set(keys))}
+    if k == "struct":
+        return {"T": [[hexs(tag or g), gen_prefill(rng, ft, depth + 1)] for g, tag, ft in t[1]]}
+    raise ValueError(t)
+
+
+def default_prefill(t):
+    """deterministic pre-fill (for shrunk types)"""
+    k = t[0]
+    if k == "string":
+        return {"S": hexs("dflt")}
+    if k == "bool":
+        return {"B": True}
+    if k in ("int", "uint"):
+        return {"I": "7"}
+    if k == "float":
+        return {"F": "0.5"}
+    if k == "any":
+        return {"A": {"m": [[hexs("keep"), {"i": "7"}]]}}
+    if k == "ptr":
+        return {"P": default_prefill(t[1])}
+    if k == "slice":
+        return {"L": [default_prefill(t[1]) for _ in range(4)]}
+    if k == "map":
+        return {"M": [[hexs("dflt"), default_prefill(t[1])], [hexs("keep"), default_prefill(t[1])]]}
+    return {"T": [[hexs(tag or g), default_prefill(ft)] for g, tag, ft in t[1]]}
+
+
+def gen_container_type(rng):
+    """top-level slice / map / struct (sometimes behind a pointer or in interface{}) three times out of four"""
+    r = rng.random()
+    if r < 0.28:
+        return ["slice", gen_type(rng, 1)]
+    if r < 0.50:
+        return ["map", gen_type(rng, 1)]
+    if r < 0.72:
+        while True:
+            t = gen_type(rng, 0)
+            if t[0] == "struct":
+                return t
+    if r < 0.80:
+        return ["ptr", gen_container_type(rng)]
+    return gen_type(rng)
 
 
 def type_go(t):
@@ -423,9 +540,15 @@ def coq_case(c, o, fix):
     """raises Odd when Configure.Get returned something the model's value type cannot carry"""
     kind = 0 if c["kind"] == "key" else 1
     v = cval_coq(o["get"]) if c["kind"] == "key" else "VNull"
-    return "mkCase %d %d %s %s %s %s %s %s %s %s %s" % (
+    pre = "None"
+    if c.get("pre") is not None:
+        if o.get("pre") is None:
+            raise Odd("the harness could not pre-fill the field")
+        pre = "(Some %s)" % fval_coq(o["pre"])      # as read back from the pre-filled Go value
+    return "mkCase %d %d %s %s %s %s %s %s %s %s %s %s %s" % (
         c["id"], kind, vlib.coq_bool(c["req"]), vlib.coq_bytes(c["key"]), v, vlib.coq_bytes(tag_text(c)),
-        type_coq(c["type"]), vlib.coq_bool(fix), obs_coq(o.get("prefix")), obs_coq(o.get("value")), obs_coq(o.get("prop")))
+        type_coq(c["type"]), vlib.coq_bool(fix), obs_coq(o.get("prefix")), obs_coq(o.get("value")), obs_coq(o.get("prop")),
+        pre, obs_coq(o.get("fresh")))
 
 
 # ------------------------------------------------------------------------------------------------
@@ -445,6 +568,17 @@ def gen_cases(ctx, n):
     out = []
     for _ in range(n):
         r = rng.random()
+        if r < 0.20:                                   # the component is registered with defaults in the bound field
+            out.append(gen_prefilled_case(rng))
+            continue
+        if r < 0.26:                                   # a top-level decimal of 8-15 significant digits
+            rr = rng.random()
+            t = (["float", 64] if rr < 0.40 else ["ptr", ["float", 64]] if rr < 0.50 else ["string"] if rr < 0.62 else
+                 ["any"] if rr < 0.70 else ["slice", ["float", 64]] if rr < 0.78 else ["float", 32] if rr < 0.84 else
+                 gen_scalar_type(rng) if rr < 0.94 else gen_type(rng))
+            out.append(mk_key_case(rng, ["f", gen_precise_float(rng)], t, req=rng.random() < 0.9, stream="precise-float"))
+            continue
+        r = (r - 0.26) / 0.74
         if r < 0.62:                                   # type first, value fitted to it
             t = gen_type(rng)
             out.append(mk_key_case(rng, fit(rng, t), t))
@@ -467,6 +601,24 @@ def gen_cases(ctx, n):
     return out
 
 
+def gen_prefilled_case(rng):
+    """constructor defaults in the configuration-bound field; the configured list is usually shorter than the default
+    slice and the configured map has keys the default lacks and lacks keys the default has"""
+    t = gen_container_type(rng)
+    r = rng.random()
+    if r < 0.08:
+        c = mk_lit_case(rng.choice(LITERALS + ["[1,2]", "[a]", "{\"a\":1}", ""]), t, req=rng.random() < 0.7, stream="prefilled")
+    elif r < 0.18:                                     # nothing configured: the default must stay (or Run fails)
+        c = mk_key_case(rng, ["n"], t, req=rng.random() < 0.4, stream="prefilled")
+        c["absent"] = rng.random() < 0.6
+    elif r < 0.26:
+        c = mk_key_case(rng, gen_any_value(rng), t, stream="prefilled")
+    else:
+        c = mk_key_case(rng, fit(rng, t), t, req=rng.random() < 0.9, stream="prefilled")
+    c["pre"] = gen_prefill(rng, t)
+    return c
+
+
 def load_corpus():
     d = os.path.join(vlib.VERIF, "corpus", "C17")
     out = []
@@ -480,7 +632,7 @@ def load_corpus():
 
 def go_case(c):
     g = {"id": c["id"], "kind": c["kind"], "key": c["key"], "args": "" if c["req"] else ",required=false",
-         "text": c["text"], "type": type_go(c["type"])}
+         "text": c["text"], "type": type_go(c["type"]), "pre": c.get("pre")}
     if c["kind"] == "key" and not c.get("absent"):
         g["yaml"] = yaml_doc(c["key"], c["value"])
     else:
@@ -489,7 +641,7 @@ def go_case(c):
 
 
 DEFS = {"M": "mismatches", "V": "violations", "K": "known", "U": "unmodelled", "NT": "count_nontrivial",
-        "DC": "domain_counts"}
+        "DC": "domain_counts", "PC": "prefill_counts"}
 
 
 def evaluate(ctx, binp, cases, tag):
@@ -520,6 +672,8 @@ def evaluate(ctx, binp, cases, tag):
     out["NT"] = sum(out["NT"])
     dc = out["DC"]
     out["DC"] = [sum(dc[i::4]) for i in range(4)]
+    pc = out["PC"]
+    out["PC"] = [sum(pc[i::5]) for i in range(5)]
     out["odd"] = odd
     return by_id, out
 
@@ -548,7 +702,8 @@ def type_size(t):
 
 
 def case_size(c):
-    return value_size(c["value"]) + type_size(c["type"]) + len(c["text"])
+    return value_size(c["value"]) + type_size(c["type"]) + len(c["text"]) + \
+        (len(json.dumps(c["pre"])) // 8 + 1 if c.get("pre") is not None else 0)
 
 
 def shrink_values(v):
@@ -607,7 +762,18 @@ def shrink_candidates(c):
     for t in shrink_types(c["type"]):
         d = copy.deepcopy(c)
         d["type"] = t
+        if d.get("pre") is not None:
+            d["pre"] = default_prefill(t)
         out.append(d)
+    if c.get("pre") is not None:
+        d = copy.deepcopy(c)
+        d["pre"] = None
+        out.append(d)
+        dp = default_prefill(c["type"])
+        if dp != c["pre"]:
+            d = copy.deepcopy(c)
+            d["pre"] = dp
+            out.append(d)
     if c["key"] != "k" and c["kind"] == "key":
         d = copy.deepcopy(c)
         d["key"] = "k"
@@ -641,7 +807,10 @@ def value_kind(v):
         return "string:other"
     if v[0] == "i":
         return "int:>2^53" if abs(v[1]) > 2 ** 53 else "int"
-    return {"f": "float", "b": "bool", "n": "null", "l": "list", "m": "map"}[v[0]]
+    if v[0] == "f":
+        nd = sig_digits(v[1])
+        return "float:8-15 significant digits" if 8 <= nd <= 15 else "float:>15 digits" if nd > 15 else "float"
+    return {"b": "bool", "n": "null", "l": "list", "m": "map"}[v[0]]
 
 
 def outcome_class(o):
@@ -704,7 +873,9 @@ def run(ctx):
         cur["how_to_read"] = ("case.value is configured under case.key by the YAML in 'yaml'; observed.get is what Configure.Get "
                               "returned; observed.prefix / value / prop are the field of type case.type after binding through "
                               "prefix:\"key\", value:\"${key}\", prop:\"key\" (strings and map keys are hex); the property demands "
-                              "that the three agree and equal the configured value converted to the field's type")
+                              "that the three agree and equal the configured value converted to the field's type; case.pre "
+                              "(if set) is what the field held when the component was registered, observed.fresh what the "
+                              "same binding leaves in a zero component - the two must not differ when something is bound")
         return cur
 
     def widen():
@@ -723,7 +894,7 @@ def run(ctx):
     vk, tk, streams, routes = {}, {}, {}, {}
     for c in cases:
         o = by_id[c["id"]]["observed"]
-        h = vlib.stable_hash([c["kind"], c["value"], c["type"], c["req"], c["text"], bool(c.get("absent"))])
+        h = vlib.stable_hash([c["kind"], c["value"], c["type"], c["req"], c["text"], bool(c.get("absent")), c.get("pre")])
         distinct[h] = 1
         oks = [o.get(r) for r in ("prefix", "value", "prop") if o.get(r) is not None and o.get(r)["o"] == "ok"]
         if oks:
@@ -734,22 +905,84 @@ def run(ctx):
         streams[c["stream"]] = streams.get(c["stream"], 0) + 1
         sig = "/".join(outcome_class(o.get(r)) for r in ("prefix", "value", "prop"))
         routes[sig] = routes.get(sig, 0) + 1
+    precise = {"top-level float of 8-15 significant digits (key cases, three routes)": 0,
+               "... written by %v in plain digits (1e-4 <= |x| < 1e6)": 0,
+               "... into float64 / *float64": 0, "... into string": 0, "... into interface{}": 0, "... into other types": 0,
+               "cases with such a float inside a list / map": 0}
+    pre = {"pre-filled cases (field non-zero when the component is registered; 3 routes + 1 fresh run)": 0,
+           "by top-level field kind": {}, "literal value tag into a pre-filled field": 0,
+           "key absent / null (the default must stay, or Run fails)": 0,
+           "configured list shorter than the pre-filled slice (top level)": 0,
+           "configured map lacks a key of the pre-filled map (top level)": 0,
+           "configured map omits a field of the pre-filled struct (top level)": 0}
+
+    def has_precise(v):
+        if v[0] == "f":
+            return 8 <= sig_digits(v[1]) <= 15
+        if v[0] == "l":
+            return any(has_precise(x) for x in v[1])
+        if v[0] == "m":
+            return any(has_precise(x) for _, x in v[1])
+        return False
+
+    def strip_ptr(t, p):
+        while t[0] == "ptr" and p is not None and "P" in p:
+            t, p = t[1], p["P"]
+        return t, p
+
+    for c in cases:
+        v, t = c["value"], c["type"]
+        if c["kind"] == "key" and not c.get("absent"):
+            if v[0] == "f" and has_precise(v):
+                precise["top-level float of 8-15 significant digits (key cases, three routes)"] += 1
+                me = dec_norm(v[1])
+                if -4 <= len(str(abs(me[0]))) + me[1] - 1 < 6:
+                    precise["... written by %v in plain digits (1e-4 <= |x| < 1e6)"] += 1
+                bt = t[1] if t[0] == "ptr" else t
+                slot = ("... into float64 / *float64" if bt == ["float", 64] else "... into string" if bt == ["string"] else
+                        "... into interface{}" if bt == ["any"] else "... into other types")
+                precise[slot] += 1
+            elif v[0] in "lm" and has_precise(v):
+                precise["cases with such a float inside a list / map"] += 1
+        if c.get("pre") is not None:
+            pre["pre-filled cases (field non-zero when the component is registered; 3 routes + 1 fresh run)"] += 1
+            kk = type_kind(t)
+            pre["by top-level field kind"][kk] = pre["by top-level field kind"].get(kk, 0) + 1
+            if c["kind"] == "lit":
+                pre["literal value tag into a pre-filled field"] += 1
+                continue
+            if c.get("absent") or v[0] == "n":
+                pre["key absent / null (the default must stay, or Run fails)"] += 1
+                continue
+            bt, bp = strip_ptr(t, c["pre"])
+            if bt[0] == "slice" and v[0] == "l" and "L" in bp and len(v[1]) < len(bp["L"]):
+                pre["configured list shorter than the pre-filled slice (top level)"] += 1
+            if bt[0] == "map" and v[0] == "m" and "M" in bp and {k for k, _ in bp["M"]} - {hexs(k) for k, _ in v[1]}:
+                pre["configured map lacks a key of the pre-filled map (top level)"] += 1
+            if bt[0] == "struct" and v[0] == "m" and "T" in bp and \
+                    {bytes.fromhex(k).decode().lower() for k, _ in bp["T"]} - {k for k, _ in v[1]}:
+                pre["configured map omits a field of the pre-filled struct (top level)"] += 1
+    pc = res["PC"]
+    pre["measured in Coq: pre-filled / something bound and Run ok / ... and the field ended different from the default / "
+        "nothing bound and the default stayed / bound ok inside the modelled fragment (compared with decode_weak)"] = pc
     kfc = {}
     for i, k in K.items():
         kfc[KF_IDS[k]] = kfc.get(KF_IDS[k], 0) + 1
     ids = sorted(by_id)
     samples = [by_id[i] for i in ids[len(corpus):len(corpus) + 2] + ids[-1:]]
-    triples = sum(3 if c["kind"] == "key" else 1 for c in cases)
+    triples = sum((3 if c["kind"] == "key" else 1) + (1 if c.get("pre") is not None else 0) for c in cases)
     cov = {
         "evaluations": triples,
         "distinct_nontrivial": len(nontrivial),
         "rule": "one evaluation = one real App.Run binding one configured value (or literal) into one field of a generated type "
-                "through one route (prefix / value placeholder / prop / literal value tag); a case is non-trivial when at least one "
+                "through one route (prefix / value placeholder / prop / literal value tag; cases of the stream 'prefilled' register "
+                "the component with a non-zero value already in the field and add one run on a zero component); a case is non-trivial when at least one "
                 "of its routes bound a value (outcome ok); distinct = distinct (kind, value, type, required, literal text)",
         "samples": samples,
         "traces_validated_against_impl": triples,
         "input_distribution": {"value_kinds": vk, "top_level_type_kinds": tk, "streams": streams,
-                               "route_outcomes(prefix/value/prop)": routes},
+                               "route_outcomes(prefix/value/prop)": routes,
+                               "high_precision_floats": precise, "prefilled_fields": pre},
         "cases": len(cases),
         "distinct_cases": len(distinct),
         "nontrivial_cases_coq": res["NT"],
